@@ -1122,7 +1122,7 @@ func crossCheck(cases []*rcase, nNames int) int {
 
 func main() {
 	res := mon.NewResult("C15")
-	res.Rule = "one case = a set of 2..12 destinations 127.x.y.z[:port[:instance]] with distinct (host, instance) pairs (few shared hosts told apart by instance, or many hosts), built as a real consistentHashing route in every listing order (<=4 destinations) or 4-5 orders (more), then an add/remove sequence of 1..6 steps (down to 1, up to 12 destinations, re-adding removed ones); names: targeted ones found with the oracle (on/around ring positions shared by two destinations, on entry positions, wrap-around, pairs colliding on one 16-bit position, exotic bytes) plus random ones; non-trivial = every destination owned a name AND a name sat exactly on an entry position AND a name wrapped past the last entry AND >=2 listing orders compared AND a membership change moved a key; distinct = different destination set or add/remove sequence"
+	res.Rule = "one case = a set of 2..12 destinations 127.x.y.z[:port[:instance]] with distinct (host, instance) pairs (few shared hosts told apart by instance, or many hosts), built as a real consistentHashing route in every listing order (<=4 destinations) or 4-5 orders (more), then an add/remove sequence of 1..6 steps (down to 1, up to 12 destinations, re-adding removed ones); names: targeted ones found with the oracle (on/around ring positions shared by two destinations, on entry positions, wrap-around, pairs colliding on one 16-bit position, exotic bytes) plus random ones; non-trivial = every destination owned a name AND a name sat exactly on an entry position AND a name wrapped past the last entry AND >=2 listing orders compared AND a membership change moved a key; distinct = different destination set or add/remove sequence; concurrent phase (counted separately, concurrent_*): on every 4th/5th ring 8 goroutines call Route.Dispatch at the same time with groups of names that collide modulo 65536 on cheap hashes and belong to different destinations, then with a few thousand names, and the per-destination hand-off totals must be those of the oracle"
 	res.Assume("a destination that cannot connect, with spool=false, counts every line it is handed exactly once in its conn_down_no_spool counter, after the hand-off and before it serves a later Flush (read in destination.relay)")
 	res.Assume("py/carbon_ring.py is a faithful transcription of carbon 0.9.x hashing.py; Python 2's None-before-everything order is supplied explicitly because CPython 3 runs it")
 	res.Assume("carbon-relay.py uses the ring with REPLICATION_FACTOR=1 and nodes (server, instance); ports are not part of a node")
@@ -1215,6 +1215,36 @@ func main() {
 	}
 	close(jobs)
 	wg.Wait()
+
+	// concurrent phase (concurrent.go): one ring at a time, nDisp dispatchers on the same route
+	cp := concParams{
+		gp:              buildGroupPool(mon.NewRng(mon.Seed(), 154, 0), 30000),
+		perHash:         mon.N(2, 3),
+		rounds:          mon.N(256, 512),
+		wbRounds:        mon.N(1024, 2048),
+		manyNames:       mon.N(3000, 6000),
+		manyPerDispatch: mon.N(3000, 12000),
+	}
+	concEvery := mon.N(4, 5) // every 4th (5th) ring: 10 (50) rings
+	if procs := runtime.NumCPU(); procs > workers {
+		runtime.GOMAXPROCS(procs) // the dispatchers and the relay loops they hand lines to run side by side
+	}
+	nConc := 0
+	tConc := time.Now()
+	for _, i := range mine {
+		if i%concEvery != 0 {
+			continue
+		}
+		c := genCase(mon.Seed(), i, cp.manyNames+1000)
+		res.LogCase("case %d concurrent phase: %d dispatchers, destinations=%v mutations=%v (applied first when %d is odd)", i, nDisp, c.describe(c.Perms[0]), c.Muts, nConc)
+		(&verifier{res: res}).runConcurrent(c, tab, nConc, cp)
+		nConc++
+	}
+	res.Set("concurrent_phase_wall_ms", int(time.Since(tConc).Milliseconds()))
+	res.Floor("concurrent_rings", nConc, nCases/concEvery)
+	ca, _ := res.Extra["concurrent_lines_attributed"].(int)
+	res.Floor("concurrent_lines_attributed", ca, (nCases/concEvery)*nDisp*cp.manyPerDispatch)
+
 	n := <-pyDone
 	res.Count("oracle_lookups_crosschecked_with_cpython", n)
 	res.Floor("oracle_lookups_crosschecked_with_cpython", n, 1)
